@@ -1,0 +1,50 @@
+//go:build verif
+
+// Contracts for package tokenizers/generic (comment-only; read by /verif's VC generator).
+package generic
+
+// ---- quote state (C14, C04, C12) -----------------------------------------------------------------
+//@ spec quoted(s string, q rune) bool = rlen(s) >= 2 && s[0] == q && s[rlen(s) - 1] == q
+//
+// d is s without its first and last character
+//@ pred stripped(d string, s string) = rlen(d) == rlen(s) - 2 && (forall i int :: 0 <= i && i < rlen(d) ==> d[i] == s[i + 1])
+// e is q ++ s ++ q
+//@ pred wrapped(e string, s string, q rune) = rlen(e) == rlen(s) + 2 && e[0] == q && e[rlen(e) - 1] == q &&
+//@     (forall i int :: 0 <= i && i < rlen(s) ==> e[i + 1] == s[i])
+//
+//@ func (c *GenericQuoteState) EncodeString
+//@   requires scalar(quoteSymbol)
+//@   ensures[C14] wrapped(result, value, quoteSymbol)
+//@   assigns nothing
+//@   nopanic
+//
+// "decoding never fails on any input": no precondition at all
+//@ func (c *GenericQuoteState) DecodeString
+//@   ensures[C14,C03] quoted(value, quoteSymbol) ==> stripped(result, value)
+//@   ensures[C14] !quoted(value, quoteSymbol) ==> result == value
+//@   assigns nothing
+//@   nopanic
+//
+// decode(encode(s)) has the length and the characters of s
+//@ lemma genericRoundTrip(s string, e string, d string, q rune)
+//@   tags C14
+//@   requires wrapped(e, s, q) && rlen(s) >= 0
+//@   requires quoted(e, q) ==> stripped(d, e)
+//@   requires !quoted(e, q) ==> d == e
+//@   ensures rlen(d) == rlen(s) && (forall i int :: 0 <= i && i < rlen(s) ==> d[i] == s[i])
+//
+//@ func (c *GenericQuoteState) NextToken
+//@   requires c != nil && isScanner(scanner) && sc(scanner).position + 1 < len(sc(scanner).content)
+//@   requires forall i int :: 0 <= i && i < len(sc(scanner).content) ==> scalar(sc(scanner).content[i])
+//@   ensures[C04,C12] result != nil && isScanner(scanner) && sc(scanner).content == old(sc(scanner).content)
+//@   ensures[C04,C14] spans(result.value, scanner, old(cur(scanner)), cur(scanner))
+//@   ensures[C12] result.line == L(seq(sc(scanner).content), old(cur(scanner))) && result.column == C(seq(sc(scanner).content), old(cur(scanner)))
+//@   ensures[C14] result.typ == tokenizers.Quoted
+//@   assigns sc(scanner).position, sc(scanner).line, sc(scanner).column
+//@   nopanic
+//@   loop 0
+//@     invariant isScanner(scanner) && sc(scanner).content == old(sc(scanner).content)
+//@     invariant old(sc(scanner).position) + 2 <= sc(scanner).position + (nextSymbol == -1 ? 1 : 0)
+//@     invariant nextSymbol == chr(seq(sc(scanner).content), sc(scanner).position)
+//@     invariant spans(builder(tokenValue), scanner, old(cur(scanner)), min(sc(scanner).position, len(sc(scanner).content)))
+//@     decreases len(sc(scanner).content) - sc(scanner).position
